@@ -212,10 +212,10 @@ _CACHE: Dict[int, List[Trace]] = {}
 
 
 def all_traces(repo) -> List[Trace]:
-    key = id(repo)
-    if key not in _CACHE:
-        _CACHE[key] = [trace_update(repo, sc) for sc in scenarios()]
-    return _CACHE[key]
+    cache = repo.__dict__.setdefault("_pvs_trace_cache", {})
+    if "update" not in cache:
+        cache["update"] = [trace_update(repo, sc) for sc in scenarios()]
+    return cache["update"]
 
 
 def result_fields(val) -> Optional[List[Any]]:
